@@ -15,8 +15,12 @@ fn run_case(case: &Sexp) -> String {
   let kind = l[2].atom();
   let body = &l[3..];
   match kind {
-    "chain" => chain::run_chain(body),
-    "hotchain" => chain::run_hotchain(body),
+    "chain" => chain::local::run_chain(body),
+    "hotchain" => chain::local::run_hotchain(body),
+    "chain_t" => chain::threads::run_chain(body),
+    "hotchain_t" => chain::threads::run_hotchain(body),
+    "op2" => chain::local::run_op2(body),
+    "op2_t" => chain::threads::run_op2(body),
     k => panic!("unknown case kind {k}"),
   }
 }
